@@ -259,3 +259,122 @@ def first_column_obligation(idx, rep, init, column, construct):
     ok = divided and col_ok and not inplace
     rep.decide(ok, "first-column", construct, f"start vector {'divided by its norm' if divided else 'NOT normalised'}{' IN PLACE' if inplace else ''}, stored in column "
                f"{nospace(stores[0].args[-1]) if stores else '?'}{' (copy)' if copied else ''}", detail="" if ok else "first-column", locs=[idx.loc(init.module, init.node)])
+
+
+# ------------------------------------------------------------------------------------------------
+def breakdown_stops(idx, rep, fact, rule, construct, counter_slot, cap_name="max_iters"):
+    """the loop condition of a Krylov factorisation, evaluated at an EXACT breakdown (every residual / norm quantity of the state is 0,
+    the counter is past its first-step exemption and below the cap), must be False: otherwise the next step divides 0 by 0.
+    Constant folding over the condition: state arrays -> 0, tol * 0 -> 0, counter > small constants, counter < cap."""
+    cond = next((g for g in fact.nested.values() if g.name.startswith("cond")), None)
+    if cond is None or not cond.params:
+        rep.undecided(rule, construct, "no nested condition function found")
+        return
+    state = cond.params[0]
+    names = None
+    for st in df.body_nodes(cond.node):
+        if isinstance(st, ast.Assign) and isinstance(st.targets[0], ast.Tuple) and isinstance(st.value, ast.Name) and st.value.id == state:
+            names = st.targets[0].elts
+    if names is None:
+        rep.undecided(rule, construct, "the condition does not unpack the loop state")
+        return
+    n = len(names)
+    star = next((i for i, e in enumerate(names) if isinstance(e, ast.Starred)), None)
+    counter = None
+    arrays = set()
+    for i, e in enumerate(names):
+        if isinstance(e, ast.Starred):
+            continue
+        slot = i if (star is None or i < star) else i - n  # negative index from the end when after the star
+        is_counter = slot == counter_slot or (slot < 0 and counter_slot is not None and slot == counter_slot - (len(names) if star is None else 0))
+        if isinstance(e, ast.Name):
+            if is_counter:
+                counter = e.id
+            elif e.id != "_":
+                arrays.add(e.id)
+    rets = [r for r in df.returns(cond.node) if r.value is not None]
+    if counter is None or not rets:
+        rep.undecided(rule, construct, "counter slot not identified in the condition")
+        return
+    ZERO, CTR, CAP, POS = ("zero", ), ("ctr", ), ("cap", ), ("pos", )
+
+    def ev(e, depth=0):
+        if depth > 30:
+            return None
+        if isinstance(e, ast.Constant):
+            if isinstance(e.value, bool):
+                return e.value
+            if isinstance(e.value, (int, float)):
+                return ZERO if e.value == 0 else ("num", e.value)
+            return None
+        if isinstance(e, ast.Name):
+            if e.id == counter:
+                return CTR
+            if e.id in arrays:
+                return ZERO
+            if e.id == cap_name:
+                return CAP
+            d = df.resolve_value(cond.node, e)
+            if d is not e:
+                return ev(d, depth + 1)
+            return POS  # tolerances and other parameters: positive numbers
+        if isinstance(e, ast.Subscript):
+            return ev(e.value, depth + 1)
+        if isinstance(e, ast.Attribute) and e.attr in ("real", "imag", "T"):
+            return ev(e.value, depth + 1)
+        if isinstance(e, ast.BinOp):
+            l, r = ev(e.left, depth + 1), ev(e.right, depth + 1)
+            if isinstance(e.op, ast.Mult):
+                return ZERO if ZERO in (l, r) else (POS if l is not None and r is not None else None)
+            if isinstance(e.op, (ast.BitOr, ast.BitAnd)) and isinstance(l, bool) and isinstance(r, bool):
+                return (l or r) if isinstance(e.op, ast.BitOr) else (l and r)
+            if isinstance(e.op, (ast.BitOr, ast.BitAnd)):
+                # short-circuit values
+                if isinstance(e.op, ast.BitOr) and True in (l, r):
+                    return True
+                if isinstance(e.op, ast.BitAnd) and False in (l, r):
+                    return False
+            if isinstance(e.op, (ast.Add, ast.Sub)) and l == CTR:
+                return CTR
+            return None
+        if isinstance(e, ast.UnaryOp) and isinstance(e.op, (ast.Invert, ast.Not)):
+            v = ev(e.operand, depth + 1)
+            return (not v) if isinstance(v, bool) else None
+        if isinstance(e, ast.BoolOp):
+            vs = [ev(v, depth + 1) for v in e.values]
+            if all(isinstance(v, bool) for v in vs):
+                return all(vs) if isinstance(e.op, ast.And) else any(vs)
+            return None
+        if isinstance(e, ast.Call):
+            f = ast.unparse(e.func)
+            if f.endswith((".any", ".all")) and e.args:
+                return ev(e.args[0], depth + 1)
+            if f.endswith((".abs", ".norm", ".max", ".sqrt")) and e.args:
+                v = ev(e.args[0], depth + 1)
+                return v if v in (ZERO, POS) else None
+            return None
+        if isinstance(e, ast.Compare) and len(e.ops) == 1:
+            l, r, op = ev(e.left, depth + 1), ev(e.comparators[0], depth + 1), e.ops[0]
+            if l == ZERO and r == ZERO:
+                return isinstance(op, (ast.GtE, ast.LtE, ast.Eq))
+            if l == ZERO and r == POS:
+                return isinstance(op, (ast.Lt, ast.LtE, ast.NotEq))
+            if l == POS and r == ZERO:
+                return isinstance(op, (ast.Gt, ast.GtE, ast.NotEq))
+            if l == CTR and (r == ZERO or (isinstance(r, tuple) and r[0] == "num")):
+                return isinstance(op, (ast.Gt, ast.GtE, ast.NotEq))  # the counter is past every small constant
+            if l == CTR and r == CAP:
+                return isinstance(op, (ast.Lt, ast.LtE, ast.NotEq))  # and below the cap
+            return None
+        return None
+
+    v = ev(rets[0].value)
+    loc = [idx.loc(cond.module, rets[0])]
+    text = ast.unparse(rets[0].value)[:110]
+    if v is False:
+        rep.proved(rule, construct, f"at an exact breakdown (all residual quantities 0, counter past its first-step exemption) `{text}` is False: the loop stops", locs=loc)
+    elif v is True:
+        rep.refuted(rule, construct, f"at an exact breakdown (all residual quantities 0, counter past its first-step exemption) `{text}` is True: the loop continues and the next "
+                    "step normalises a zero vector (0/0), e.g. when the start vector is an exact eigenvector", detail="continues", locs=loc)
+    else:
+        rep.undecided(rule, construct, f"`{text}` could not be folded at the breakdown point", locs=loc)
